@@ -69,7 +69,7 @@ def run(ctx):
                     ctx.violation("C11:unprefixed-keeps-a-prefix", f"({mag} {pname}*{uname}).unprefixed() = {un!r}", {})
                 expected = oracle.F(mag) * pv * oracle.prefix_value(u.prefix)
                 if not close(un.magnitude, expected, R12 if p.base in (0, u.prefix.base or p.base) else R9):
-                    ctx.violation("C11:unprefixed-changes-value", f"({mag} {pname}*{uname}).unprefixed() = {un.magnitude!r}, exact {float(expected)!r}",
+                    ctx.violation("C11:unprefixed-changes-value", f"({mag} {pname}*{uname}).unprefixed() = {un.magnitude!r}, exact {core.sf(expected)!r}",
                                   {"prefix": pname, "unit": uname, "mag": mag})
                 if isinstance(mag, int) and isinstance(p.exponent, int) and p.exponent >= 0 and u.prefix.base == 0:
                     ctx.count("identities/exact_equality")
@@ -174,7 +174,7 @@ def run(ctx):
             continue
         expected = oracle.F(mag) * oracle.prefix_value(pa[1]) / oracle.prefix_value(pb[1])
         if kit.finite(got.magnitude) and not close(got.magnitude, expected, R9 if mixed else R12 * 10):
-            ctx.violation("C11:conversion-between-prefixes", f"{mag!r} {src} -> {dst} = {got.magnitude!r}, exact {float(expected)!r}",
+            ctx.violation("C11:conversion-between-prefixes", f"{mag!r} {src} -> {dst} = {got.magnitude!r}, exact {core.sf(expected)!r}",
                           {"unit": base_term, "a": pa[0], "b": pb[0], "mag": repr(mag)})
         # stripping prefixes never changes the value (oracle SI value)
         q = mag * src
